@@ -22,3 +22,11 @@ def v1_text(version, security, oldfileuid, newfileuid, encoding="USASCII", chars
 def v2_text(version, security, oldfileuid, newfileuid):
     return ('<?xml version="1.0" encoding="UTF-8" standalone="no"?>\r\n<?OFX OFXHEADER="200" VERSION="' + str(version)
             + '" SECURITY="' + security + '" OLDFILEUID="' + oldfileuid + '" NEWFILEUID="' + newfileuid + '"?>\r\n')
+
+
+CODEC_OF = {"ISO-8859-1": "latin_1", "1252": "cp1252", "NONE": "utf_8"}
+
+
+def decoded(body, charset):
+    """the body bytes decoded with the character set the header declares"""
+    return body.decode(CODEC_OF[charset])
